@@ -401,6 +401,7 @@ func runOneofC12(r *vh.Rand, cfg *vh.Config, val protovalidate.Validator, res *v
 		}
 		if r.Chance(25) {
 			env.Where = 1 + r.Intn(2) // the enum in another file of the package / in an imported package
+			genAST = false            // several source files: text path (the generator draws AST-only forms otherwise)
 		}
 		var props []Prop
 		for i, k := 0, r.Range(2, 4); i < k; i++ {
